@@ -40,6 +40,10 @@ def run(tier):
             rest = [c for c in cases if len(c["comps"]) > 3]
             rng.shuffle(rest)
             cases = small + rest[:800]
+        # very long refused paths (the model's alphabet has one "long" component; these go beyond it)
+        for big in ("XL", "CTL", "BSL"):
+            cases += [{"abs": False, "comps": ["..", big]}, {"abs": True, "comps": [big]}, {"abs": False, "comps": [big, "..", "n"]},
+                      {"abs": False, "comps": ["d", big, "..", "..", "..", "n"]}]
         log(f"[C11] PathGuard: {r.distinct} states, {len(cases)} paths to send")
         hashes = hr.compute_hashes(bins["vh_lib"], work)
         recs = hp.run_cases(copia, shim, os.path.join(work, "p"), hashes, cases)
